@@ -56,6 +56,7 @@ theorem doRegister_bal_other (c : Ctx) (s s' : St) (fr : Nat) (amt : Int) (flag 
   split at h
   · split at h; · cases h
     split at h; · cases h
+    split at h; · cases h
     injection h with h; subst h
     rw [modAcct_bal _ _ _ (by intro _; rfl), transfer_bal_other _ _ _ _ _ hf hp, modAcct_bal _ _ _ (by intro _; rfl)]
   · split at h; · cases h
@@ -174,6 +175,7 @@ theorem body_income_other (c : Ctx) (s s' : St) (tx : Tx) (ib : Int) (h : body c
     split at h; · cases h
     split at h
     · split at h; · cases h
+      split at h; · cases h
       split at h; · cases h
       injection h with h; subst h
       rw [modAcct_income_other _ _ _ _ hx, transfer_income, modAcct_income_other _ _ _ _ hx]
